@@ -30,6 +30,7 @@ import (
 	"context"
 	"encoding/binary"
 	"errors"
+	"fmt"
 	"io"
 	"io/ioutil"
 	"mime/multipart"
@@ -435,6 +436,11 @@ func (c *FCGIClient) Request(p map[string]string, req io.Reader) (resp *http.Res
 		statusParts := strings.SplitN(resp.Header.Get("Status"), " ", 2)
 		resp.StatusCode, err = strconv.Atoi(statusParts[0])
 		if err != nil {
+			return
+		}
+		if resp.StatusCode < 100 || resp.StatusCode > 999 {
+			// net/http panics on WriteHeader with such a code
+			err = fmt.Errorf("fcgi: responder sent invalid status code %d", resp.StatusCode)
 			return
 		}
 		if len(statusParts) > 1 {
